@@ -241,7 +241,11 @@ func (w *wal) flush(batch WALBatch) error {
 
 func (w WALBatch) replay(fs *fileStore) error {
 	for _, row := range w {
-		fs._nextLSN = row.LSN
+		// never move the LSN counter backwards: operations that are not logged
+		// (CREATE TABLE) may have consumed LSNs beyond the last record
+		if row.LSN >= fs._nextLSN {
+			fs._nextLSN = row.LSN + 1
+		}
 		node, err := fs.fetch(row.pageID)
 		if err != nil {
 			return err
@@ -258,8 +262,10 @@ func (w WALBatch) replay(fs *fileStore) error {
 			if err != nil && !errors.Is(err, errKeyAlreadyExists) {
 				return err
 			}
-			if err := fs.incrementLastKey(); err != nil {
-				return err
+			// the record carries the row id it was given; counting records
+			// would reissue ids consumed by failed inserts
+			if row.cellID > fs.lastKey {
+				fs.lastKey = row.cellID
 			}
 
 		case OpUpdate:
@@ -278,6 +284,5 @@ func (w WALBatch) replay(fs *fileStore) error {
 		}
 	}
 
-	fs._nextLSN++
 	return fs.flushPages()
 }
